@@ -98,7 +98,11 @@ class Bloom(sm.SM):
             case = r["case"]
             name = "+".join(case["filters"])
             if r.get("error"):
-                raise vf.ToolError("source scenario could not run: %s" % r["error"])
+                # cannot be judged; only a tool error if nothing else explains it (a broken filter shows up in the replay stages)
+                if not out.violations:
+                    raise vf.ToolError("source scenario could not run: %s" % r["error"])
+                out.notes.append("source scenario could not run: %s" % r["error"])
+                continue
             if r.get("panic"):
                 out.violation("Bloom:source[%s]:panic" % name, {"how": "source", "case": case, "panic": r["panic"], "exchange": r.get("exchange")})
                 continue
@@ -125,11 +129,12 @@ class Bloom(sm.SM):
                     accepted += 1
                 else:
                     rejected += 1
-        if rejected == 0 or accepted == 0:
+        if (rejected == 0 or accepted == 0) and not out.violations:
             raise vf.ToolError("vacuous source scenario (accepted=%d rejected=%d)" % (accepted, rejected))
         out.add("source_exchanges_on_real_NtpSource", exchanges)
         out.add("source_exchanges_expected_unusable_by_bloom_filter", rejected)
-        out.sample({"source_case": rows[0]["case"], "last_row": rows[0]["rows"][-1]})
+        if rows and rows[0].get("rows"):
+            out.sample({"source_case": rows[0]["case"], "last_row": rows[0]["rows"][-1]})
 
 
 def run(prop, tier, seed):
@@ -148,9 +153,18 @@ def run(prop, tier, seed):
     b = Bloom()
     cfgs = QUICK if tier == "quick" else THOROUGH
     vf.build_harness()
-    for c in cfgs:
-        n = CFGS[c]["n"]
-        b.model_and_replay(out, prop, tier, seed, c, max_len=max(60, 3 * n + 30))
+    # the TLC runs are independent: run them side by side and hand the graphs to the generic pipeline
+    with concurrent.futures.ThreadPoolExecutor(len(cfgs)) as ex:
+        futs = {"Gen_Bloom_%s.cfg" % c: ex.submit(vf.collect_graph, "MC_Bloom", "Gen_Bloom_%s.cfg" % c, workers=3, timeout=1500) for c in cfgs}
+        graphs = {k: f.result() for k, f in futs.items()}
+    orig = vf.collect_graph
+    vf.collect_graph = lambda module, cfg, **kw: graphs[cfg]
+    try:
+        for c in cfgs:
+            n = CFGS[c]["n"]
+            b.model_and_replay(out, prop, tier, seed, c, max_len=max(60, 3 * n + 30))
+    finally:
+        vf.collect_graph = orig
     b.trace(out, prop, tier, seed, "transfer")
     b.trace(out, prop, tier, seed, "rids")
     b.source_clause(out, prop, tier, seed)
